@@ -475,3 +475,28 @@ fn c12_history_done_or_cancel_after_choke() {
     kani::cover!(!done, "late PieceCancel");
     std::mem::forget(peers);
 }
+
+// @prop C10 C01
+// @fn req_data, Peer::handle_unchoke, Metainfo::piece_length, Metainfo::piece
+// @bound 3 pieces of a 10-byte torrent with piece length 4 (last piece 2 bytes), fresh peer advertising everything, every chooser answer
+// @desc the assignment handed to the connection task names the chosen piece, that piece's own length (the shorter last piece included) and the torrent's hash for exactly that piece
+#[kani::proof]
+#[kani::unwind(6)]
+fn c10_assignment_carries_piece_length_and_hash() {
+    let m = mk_simple(NP, 4, 10);
+    let mut status = vec![Status::Missing, Status::Missing, Status::Missing];
+    let mut p = fresh_peer(NP);
+    p.pieces = vec![true, true, true];
+    let i: usize = kani::any();
+    kani::assume(i < NP);
+    match p.handle_unchoke(Some(i), &mut status, &m) {
+        UnchokeCmd::SendInterestedAndRequest(r) | UnchokeCmd::SendRequest(r) => {
+            assert!(r.piece_index == i, "names the chosen piece");
+            assert!(r.piece_length == if i < 2 { 4 } else { 2 }, "with that piece's own length");
+            assert!(r.piece_hash[0] == (i + 1) as u8, "and the torrent's hash for that piece");
+            kani::cover!(i == 2, "the shorter last piece");
+        }
+        _ => panic!("an assignment must produce a request"),
+    }
+    std::mem::forget(p);
+}
